@@ -170,14 +170,14 @@ func snapManager(m *LockManager) KeySnap {
 	for _, l := range holdersOf(m) {
 		hs := HoldSnap{Depth: l.locked, Deadline: l.expriedTime, Start: l.startTime, IsAof: l.isAof, AckPend: l.ackCount != 0xff, ptr: l}
 		if c := l.command; c != nil {
-			hs.Lid, hs.Req, hs.Count, hs.Rcount, hs.TFlag, hs.EFlag, hs.Expried = c.LockId, c.RequestId, c.Count, c.Rcount, c.TimeoutFlag, c.ExpriedFlag, c.Expried
+			hs.Lid, hs.Req, hs.Count, hs.Rcount, hs.TFlag, hs.EFlag, hs.Expried = c.LockId, aliasRid(c.RequestId), c.Count, c.Rcount, c.TimeoutFlag, c.ExpriedFlag, c.Expried
 		}
 		s.Holders = append(s.Holders, hs)
 	}
 	for _, l := range waitersOf(m) {
 		ws := WaitSnap{Dead: l.timeoutTime, ptr: l}
 		if c := l.command; c != nil {
-			ws.Lid, ws.Req, ws.Count, ws.Rcount, ws.TFlag, ws.Timeout = c.LockId, c.RequestId, c.Count, c.Rcount, c.TimeoutFlag, c.Timeout
+			ws.Lid, ws.Req, ws.Count, ws.Rcount, ws.TFlag, ws.Timeout = c.LockId, aliasRid(c.RequestId), c.Count, c.Rcount, c.TimeoutFlag, c.Timeout
 			if c.TimeoutFlag&protocol.TIMEOUT_FLAG_RCOUNT_IS_PRIORITY != 0 {
 				ws.Prio = c.Rcount
 			}
@@ -479,6 +479,9 @@ func genCore(prop string, seed uint64, tier string, g genCfg) *Scenario {
 		cs := ClientSpec{Kind: "mem", StartMs: r.Intn(300)}
 		if !g.memOnly && r.Intn(3) == 0 {
 			cs.Kind = "bin"
+			if r.Intn(3) == 0 {
+				cs.Kind = "text"
+			}
 		}
 		no := between(r, g.nOps)
 		for i := 0; i < no; i++ {
@@ -601,6 +604,7 @@ type coreRun struct {
 	model   *Model
 	drained bool
 	ms      *monitorState
+	texts   []*textClient
 }
 
 func (cr *coreRun) clientTask(ci int, cs ClientSpec) {
@@ -616,11 +620,30 @@ func (cr *coreRun) clientTask(ci int, cs ClientSpec) {
 			return
 		}
 		c = bc
+	case "text":
+		tc, err := newTextClient(w, cr.h, cr.node.addr, ci)
+		if err != nil {
+			w.harnessErr("client %d dial: %v", ci, err)
+			return
+		}
+		c = tc
+		ssched.NoPreempt(func() { cr.texts = append(cr.texts, tc) })
 	default:
 		c = newMemClient(w, cr.h, cr.node, ci)
 	}
 	cr.clients[ci] = c
+	curDb := uint8(0)
 	for i, op := range cs.Ops {
+		if tc, ok := c.(*textClient); ok {
+			textable(&op)
+			if op.Db != curDb {
+				if v, ok := tc.Do("SELECT", fmt.Sprint(op.Db)); !ok || v.Kind != '+' {
+					w.violate("C03", "text_select_failed", "text client %d: SELECT %d answered %s", ci, op.Db, v)
+					return
+				}
+				curDb = op.Db
+			}
+		}
 		if op.DelayMs > 0 {
 			sleep(time.Duration(op.DelayMs) * time.Millisecond)
 		}
@@ -630,7 +653,7 @@ func (cr *coreRun) clientTask(ci int, cs ClientSpec) {
 			r.lost = true
 			return
 		}
-		if op.Wait && !cr.body.Serial {
+		if (op.Wait && !cr.body.Serial) || cs.Kind == "text" {
 			<-r.done
 		}
 	}
@@ -689,6 +712,12 @@ func runCore(w *World) {
 	}, time.Duration(w.sc.MaxSimS)*time.Second)
 	w.res.LoopEnd = end
 	if end != "done" && w.res.HarnessErr == "" && len(w.res.Violations) == 0 {
+		dumpStacks()
+		for _, tc := range cr.texts {
+			if p := tc.serverProto(cr.node); p != nil {
+				w.logf("TEXTSTATE c%d sent=%d got=%d cur=%v raw=%v parser=%+v pending_in=%d pending_srv=%d", tc.id, tc.sent, tc.got, tc.cur != nil, tc.rawWait != nil, *p.parser, tc.conn.Pending(), tc.conn.Peer.Pending())
+			}
+		}
 		w.harnessErr("run did not finish: loop ended with %q in phase %d (done=%d/%d)", end, phase, cr.done, len(body.Clients))
 	}
 	if phase == 3 && len(w.res.Violations) == 0 && w.res.HarnessErr == "" {
